@@ -69,3 +69,108 @@ package model
 
 //@ func (*T0x0805).Parse
 //@   loop 1 decreases int(t.MultimediaIDNumber) - i
+
+// ---------------------------------------------------------------------------------------------
+// C08: location base block and flag tables, written from the standard's tables (JT/T 808 tables 24, 25, 31)
+// ---------------------------------------------------------------------------------------------
+
+//@ func (*AlarmSignDetails).parse
+//@   modifies *a
+//@   ensures C08.alarm0: iff(a.EmergencyAlarm, bit(alarmSign, 0))
+//@   ensures C08.alarm1: iff(a.OverSpeed, bit(alarmSign, 1))
+//@   ensures C08.alarm2: iff(a.FatigueDriving, bit(alarmSign, 2))
+//@   ensures C08.alarm3: iff(a.DangerousAlarm, bit(alarmSign, 3))
+//@   ensures C08.alarm4: iff(a.GNSSModuleFault, bit(alarmSign, 4))
+//@   ensures C08.alarm5: iff(a.GNSSAntennaFault, bit(alarmSign, 5))
+//@   ensures C08.alarm6: iff(a.GNSSAntennaShortCircuit, bit(alarmSign, 6))
+//@   ensures C08.alarm7: iff(a.TerminalPowerSupply, bit(alarmSign, 7))
+//@   ensures C08.alarm8: iff(a.TerminalPowerSupplyShutdown, bit(alarmSign, 8))
+//@   ensures C08.alarm9: iff(a.TerminalLCDFault, bit(alarmSign, 9))
+//@   ensures C08.alarm10: iff(a.TTSModuleFault, bit(alarmSign, 10))
+//@   ensures C08.alarm11: iff(a.CameraFault, bit(alarmSign, 11))
+//@   ensures C08.alarm12: iff(a.ICCardModuleFault, bit(alarmSign, 12))
+//@   ensures C08.alarm13: iff(a.OverSpeedAlarm, bit(alarmSign, 13))
+//@   ensures C08.alarm14: iff(a.FatigueDrivingAlarm, bit(alarmSign, 14))
+//@   ensures C08.alarm15: iff(a.ViolationDrivingAlarm, bit(alarmSign, 15))
+//@   ensures C08.alarm16: iff(a.TirePressureAlarm, bit(alarmSign, 16))
+//@   ensures C08.alarm17: iff(a.RightTurnBlindAreaAlarm, bit(alarmSign, 17))
+//@   ensures C08.alarm18: iff(a.DrivingTimeout, bit(alarmSign, 18))
+//@   ensures C08.alarm19: iff(a.OverTimeStop, bit(alarmSign, 19))
+//@   ensures C08.alarm20: iff(a.InOutArea, bit(alarmSign, 20))
+//@   ensures C08.alarm21: iff(a.InOutLine, bit(alarmSign, 21))
+//@   ensures C08.alarm22: iff(a.SectionDrivingTime, bit(alarmSign, 22))
+//@   ensures C08.alarm23: iff(a.LineDeviation, bit(alarmSign, 23))
+//@   ensures C08.alarm24: iff(a.VSSFault, bit(alarmSign, 24))
+//@   ensures C08.alarm25: iff(a.OilLevelAbnormality, bit(alarmSign, 25))
+//@   ensures C08.alarm26: iff(a.StealCar, bit(alarmSign, 26))
+//@   ensures C08.alarm27: iff(a.LaneDeviation, bit(alarmSign, 27))
+//@   ensures C08.alarm28: iff(a.LaneOffset, bit(alarmSign, 28))
+//@   ensures C08.alarm29: iff(a.CollisionAlarm, bit(alarmSign, 29))
+//@   ensures C08.alarm30: iff(a.SideSlipAlarm, bit(alarmSign, 30))
+//@   ensures C08.alarm31: iff(a.LaneOpeningAlarm, bit(alarmSign, 31))
+
+//@ func (*StatusSignDetails).parse
+//@   modifies *s
+//@   ensures C08.status0: iff(s.ACC, bit(statusSign, 0))
+//@   ensures C08.status1: iff(s.Location, bit(statusSign, 1))
+//@   ensures C08.status2: iff(s.South, bit(statusSign, 2))
+//@   ensures C08.status3: iff(s.East, bit(statusSign, 3))
+//@   ensures C08.status4: iff(s.Suspended, bit(statusSign, 4))
+//@   ensures C08.status5: iff(s.Encryption, bit(statusSign, 5))
+//@   ensures C08.status6: iff(s.EmergencyBrake, bit(statusSign, 6))
+//@   ensures C08.status7: iff(s.LaneOffset, bit(statusSign, 7))
+//@   ensures C08.status10: iff(s.Oil, bit(statusSign, 10))
+//@   ensures C08.status11: iff(s.Electricity, bit(statusSign, 11))
+//@   ensures C08.status12: iff(s.VehicleDoor, bit(statusSign, 12))
+//@   ensures C08.status13: iff(s.FrontDoor, bit(statusSign, 13))
+//@   ensures C08.status14: iff(s.MiddleDoor, bit(statusSign, 14))
+//@   ensures C08.status15: iff(s.BackDoor, bit(statusSign, 15))
+//@   ensures C08.status16: iff(s.DriverDoor, bit(statusSign, 16))
+//@   ensures C08.status17: iff(s.CustomDoor, bit(statusSign, 17))
+//@   ensures C08.status18: iff(s.UseGPS, bit(statusSign, 18))
+//@   ensures C08.status19: iff(s.UseBD, bit(statusSign, 19))
+//@   ensures C08.status20: iff(s.UseGLONASS, bit(statusSign, 20))
+//@   ensures C08.status21: iff(s.UseGalileo, bit(statusSign, 21))
+//@   ensures C08.status22: iff(s.VehicleRunning, bit(statusSign, 22))
+
+//@ func (*T0x0200AdditionDetails).parseExtendVehicleStatus
+//@   ensures C08.value: result.Value == value
+//@   ensures C08.ext0: iff(result.LowBeamSignal, bit(value, 0))
+//@   ensures C08.ext1: iff(result.HighBeamSignal, bit(value, 1))
+//@   ensures C08.ext2: iff(result.RightTurnSignal, bit(value, 2))
+//@   ensures C08.ext3: iff(result.LeftTurnSignal, bit(value, 3))
+//@   ensures C08.ext4: iff(result.BrakeSignal, bit(value, 4))
+//@   ensures C08.ext5: iff(result.ReverseGearSignal, bit(value, 5))
+//@   ensures C08.ext6: iff(result.FogLightSignal, bit(value, 6))
+//@   ensures C08.ext7: iff(result.ClearanceLights, bit(value, 7))
+//@   ensures C08.ext8: iff(result.HornSignal, bit(value, 8))
+//@   ensures C08.ext9: iff(result.AirConditionerSignal, bit(value, 9))
+//@   ensures C08.ext10: iff(result.NeutralSignal, bit(value, 10))
+//@   ensures C08.ext11: iff(result.RetarderWork, bit(value, 11))
+//@   ensures C08.ext12: iff(result.ABSWork, bit(value, 12))
+//@   ensures C08.ext13: iff(result.HeaterWork, bit(value, 13))
+//@   ensures C08.ext14: iff(result.ClutchStatus, bit(value, 14))
+
+//@ func (*T0x0200AdditionDetails).parseIOStatus
+//@   ensures C08.value: result.Value == value
+//@   ensures C08.io0: iff(result.DeepSleepStatus, bit(value, 0))
+//@   ensures C08.io1: iff(result.SleepStatus, bit(value, 1))
+
+//@ func (*T0x0200LocationItem).parse
+//@   modifies *tl
+//@   ensures C08.short: len(body) < 28 ==> iserr(result, protocol.ErrBodyLengthInconsistency)
+//@   ensures C08.ok: iff(result == nil, len(body) >= 28)
+//@   ensures C08.alarm: result == nil ==> tl.AlarmSign == be32(body, 0)
+//@   ensures C08.status: result == nil ==> tl.StatusSign == be32(body, 4)
+//@   ensures C08.lat: result == nil ==> tl.Latitude == be32(body, 8)
+//@   ensures C08.lon: result == nil ==> tl.Longitude == be32(body, 12)
+//@   ensures C08.alt: result == nil ==> tl.Altitude == be16(body, 16)
+//@   ensures C08.speed: result == nil ==> tl.Speed == be16(body, 18)
+//@   ensures C08.dir: result == nil ==> tl.Direction == be16(body, 20)
+//@   ensures C08.timelen: result == nil ==> len(tl.DateTime) == 19
+//@   ensures C08.time: result == nil ==> forall(k, 0, 6, tl.DateTime[2+3*k] == (body[22+k] >> 4) + '0' && tl.DateTime[3+3*k] == (body[22+k] & 0x0f) + '0')
+//@   ensures C08.flag0: result == nil ==> iff(tl.AlarmSignDetails.EmergencyAlarm, bit(be32(body, 0), 0))
+//@   ensures C08.flag31: result == nil ==> iff(tl.AlarmSignDetails.LaneOpeningAlarm, bit(be32(body, 0), 31))
+//@   ensures C08.sflag0: result == nil ==> iff(tl.StatusSignDetails.ACC, bit(be32(body, 4), 0))
+//@   ensures C08.sflag22: result == nil ==> iff(tl.StatusSignDetails.VehicleRunning, bit(be32(body, 4), 22))
+
